@@ -107,6 +107,7 @@ fn kind_from(c: u128) -> io::ErrorKind {
         2 => io::ErrorKind::ConnectionReset,
         3 => io::ErrorKind::WriteZero,
         4 => io::ErrorKind::InvalidInput,
+        6 => io::ErrorKind::TimedOut,
         _ => io::ErrorKind::InvalidData,
     }
 }
